@@ -17,7 +17,8 @@ CLAIMED = {
     "C02": ("sibling-table agreement (record codes, CRC input), loop-exit guard, lock-region and value-flow rules over MIR",
             "writer/reader agreement on the log record table and CRC input; replay leaves its loop at the first bad record; queue "
             "restored under the writer lock, cleared on a commit marker, discarded by rollback, synced on Drop; log cut to its "
-            "intact prefix before appends; every set_len is followed by sync_all on all success paths", "5/C02"),
+            "intact prefix before appends; every set_len is followed by sync_all on all success paths; Wal::len (the rollback point) seeks "
+            "to the end of the file", "5/C02"),
     "C03": ("MIR reachability from the publish point, outcome-arm dominance, error-disposition enumeration",
             "no error return after publish; publish only on the success arm of store+marker+sync; error arm never deletes files "
             "the on-disk manifest may reference; queue extended only after the log append; every fallible storage call in the "
@@ -120,7 +121,8 @@ CLAIMED = {
     "C23": ("who-may-call over the handler call graph (route table extracted from the router), ordering inside the batch add",
             "no HTTP handler can reach the queue-wiping rollback / truncate; /add and /bulk queue through the all-or-nothing "
             "add_documents, whose checks precede the first append and whose failure arm restores queue and log; every id given to "
-            "delete_documents is logged unconditionally", "5/C23"),
+            "delete_documents is logged unconditionally; the length a failed commit cuts the log back to is measured by seeking to the end "
+            "of the file", "5/C23"),
     "C24": ("handler signature table, spawn_blocking containment of heavy core calls, status-constant table, fallback presence, panic-source enumeration over the request context",
             "handlers return Result<_,HttpError> or a response; HttpError renders the JSON envelope with its status; heavy core calls run "
             "inside spawn_blocking with the JoinError mapped to 500; status constants follow the documented table; unknown routes and "
